@@ -132,6 +132,14 @@ def reference_groups(nu, pi, p2, full):
     return out
 
 
+def model_cost(nu, pi, p2, n, ph, lossy):
+    """rough number of list-dictionary steps of the vm_compute run (association lists, not hash maps)"""
+    k = sum(1 for t in outcome_table(nu, pi, p2) if t[2] != 0)
+    P = ph * (2 if (p2 != 0 and nu != 0) else 1)
+    S = math.comb(n + P, P) if lossy else math.comb(n + P - 1, P) if P else 1
+    return (k ** ph) * max(P, 1) * S * S * 3
+
+
 def groups_of_key(k, n):
     """group Fock states of an implementation key (State or annotated list)"""
     if k and isinstance(k[0], list):
@@ -200,7 +208,7 @@ class C06:
             "p2 6 values in [0,1) with purity = 1-2p2/(1+p2)^2), optional probability threshold kept away from every "
             "input probability, inputs with bunching/gaps/heralded photons (<=3 photons <=4 modes quick, <=4 photons "
             "<=5 modes thorough), bs/ps/random-unitary circuits with 0-2 loss elements and 0-2 heralds, both backends; "
-            "plus arbitrary labelled dictionaries for _remap_distribution, out-of-range constructor values, HOM and "
+            "plus arbitrary labelled dictionaries for _remap_distribution, out-of-range and non-numeric constructor values, HOM and "
             "single-photon (g2) configurations over the whole grid. Non-trivial: >=2 photons (or a noise photon "
             "possible) with an imperfect source; distinct = distinct canonical JSON")
     TRUSTED = ["Backend.full_probability_distribution (per-group boson sampling distribution) is an oracle of the model: "
@@ -208,11 +216,11 @@ class C06:
                "purity_to_prob / indistinguishability**0.5 are evaluated by CPython floats; the model receives the exact rationals "
                "p2, sqrt(I) and checks (1-purity)(1+p2)^2 = 2 p2 and p_i^2 = I; Proofs/SourceP.v proves the code's real formulas satisfy them"]
     ASSUMPTIONS = ["occupations are validated non-negative ints (Sampler.input_state setter)",
-                   "pdist_calc (State inputs) is modelled with the REPAIRED vacuum bookkeeping of finding F1 (property C04)",
+                   "pdist_calc (State inputs) is modelled with the repaired vacuum bookkeeping of finding F1 (property C04; fixed in /repo)",
                    "a probability threshold above every input probability leaves an empty input dictionary (the Sampler then "
                    "returns {vacuum: 1}); normalisation is claimed only when at least one input survives",
-                   "entries of the implementation below 1e-13 are float fuzz of exact zeros (1-(p1+p2) with brightness 1) and are "
-                   "ignored when counting check_number"]
+                   "check_number: the implementation must contain every input state of the model; extra implementation entries "
+                   "are tolerated only below 1e-13 (float fuzz of the exactly vanishing c0 = 1-(p1+p2) at brightness 1)"]
     CHUNK = 12
 
     def __init__(self):
@@ -227,7 +235,7 @@ class C06:
         return self._ctx[key]
 
     # ---------------------------------------------------------------- generate
-    def _params(self, rng, imperfect=None):
+    def _params(self, rng):
         r = rng.random()
         if r < 0.12:
             nu, pi, p2 = rng.choice(NU), F(1), F(0)          # brightness-only fast path
@@ -238,17 +246,16 @@ class C06:
         return nu, pi, p2
 
     def _state(self, rng, n_modes, max_ph):
-        while True:
-            k = rng.randint(0, max_ph)
-            st = [0] * n_modes
-            for _ in range(k):
-                st[rng.randrange(n_modes)] += 1
-            if rng.random() < 0.25 and n_modes >= 3:      # force a run of empty modes
-                i = rng.randrange(n_modes - 1)
-                k2 = st[i] + st[i + 1]
-                st[i] = st[i + 1] = 0
-                st[rng.randrange(n_modes)] += k2
-            return st
+        k = rng.randint(0, max_ph)
+        st = [0] * n_modes
+        for _ in range(k):
+            st[rng.randrange(n_modes)] += 1
+        if rng.random() < 0.25 and n_modes >= 3:      # force a run of empty modes
+            i = rng.randrange(n_modes - 1)
+            k2 = st[i] + st[i + 1]
+            st[i] = st[i + 1] = 0
+            st[rng.randrange(n_modes)] += k2
+        return st
 
     def _threshold(self, rng, c, st_full):
         """choose a threshold that is >= 1e-6 (relative 1e-6) away from every unthresholded probability"""
@@ -315,6 +322,13 @@ class C06:
             her_ph = sum(h[1] for h in circ["heralds"])
             max_ph = (3 if quick else 4) - her_ph
             st = self._state(rng, n - n_her, max(0, max_ph))
+            budget = 6e7
+            if model_cost(nu, pi, p2, n, her_ph, lossy) > budget:
+                for h in circ["heralds"]:
+                    h[1] = min(h[1], 1)
+                her_ph = sum(h[1] for h in circ["heralds"])
+            while model_cost(nu, pi, p2, n, sum(st) + her_ph, lossy) > budget and sum(st) > 0:
+                st[max(range(len(st)), key=lambda i: st[i])] -= 1      # keep the model run affordable
             c = dict(kind="sampler", nu=q(nu), pi=q(pi), p2=q(p2), thr=[0, 1], st=st, circ=circ,
                      backend=rng.choice(["permanent", "slos"]))
             c["thr"] = q(self._threshold(rng, c, full_input(circ, st)))
@@ -338,9 +352,11 @@ class C06:
         for key, v in bad:
             c = dict(kind="stats", nu=q(F(1, 2)), pi=q(F(1)), p2=q(F(0)), thr=[0, 1], st=[1, 0], malformed=key)
             c[key] = q(v)
-            if key in ("purity", "indist"):
-                c[key] = q(v)
             cases.append(c)
+        # (f) non-numeric constructor values (implementation only: the model's universe is numbers)
+        for field in ("purity", "brightness", "indistinguishability", "probability_threshold"):
+            for v in (True, "0.7", None):
+                cases.append(dict(kind="badtype", field=field, value=v))
         return cases
 
     # -------------------------------------------------------------------- impl
@@ -369,6 +385,12 @@ class C06:
             except Exception as e:  # noqa: BLE001
                 name = type(e).__name__
                 return {"err": name if name in core.ERR_CODES.values() else "OtherError", "exc": name}
+        if k == "badtype":
+            try:
+                Source(**{c["field"]: c["value"]})
+                return {"ok": None}
+            except Exception as e:  # noqa: BLE001
+                return {"err": type(e).__name__}
         if k == "remap":
             d = {}
             for a, w in c["d"]:
@@ -435,6 +457,8 @@ class C06:
     def compare(self, c, a, b):
         """a = implementation, b = model"""
         k = c["kind"]
+        if k == "badtype":
+            return None
         if k == "remap":
             return core.approx_equal(a, b)
         if not (isinstance(a, dict) and isinstance(b, dict)):
@@ -452,12 +476,16 @@ class C06:
             d = dist_diff(da, db)
             if d:
                 return "input statistics differ at " + d
-            na = sum(1 for v in da.values() if v > FUZZ)
-            nb = sum(1 for v in db.values() if v > FUZZ)
-            if x["type"] == 1 and na != nb:
-                return f"check_number differs: {na} != {nb}"
-            if x["type"] == 0 and len(da) != len(db):
-                return f"check_number differs: {len(da)} != {len(db)}"
+            # check_number: same set of input states; the implementation may only have EXTRA entries that are
+            # float fuzz (< 1e-13) of an exactly vanishing coefficient (c0 = 1 - (p1 + p2) with brightness 1)
+            missing = [kk for kk in db if kk not in da]
+            if missing:
+                return f"check_number differs: implementation lacks input {list(missing[0])} (model p={db[missing[0]]!r})"
+            nu_, _pi, p2_, _pur, _ind, _thr = src_params(c)
+            fuzzy = x["type"] == 1 and nu_ == 1 and p2_ != 0
+            extra = [kk for kk in da if kk not in db and not (fuzzy and da[kk] <= FUZZ)]
+            if extra:
+                return f"check_number differs: implementation has extra input {list(extra[0])} p={da[extra[0]]!r}"
             if abs(x["total"] - y["total"]) > TOL:
                 return f"totals differ {x['total']} {y['total']}"
             return None
@@ -473,6 +501,8 @@ class C06:
         k = c["kind"]
         if k == "remap":
             return self._oracle_remap(c, obs)
+        if k == "badtype":
+            return None if obs == {"err": "TypeError"} else f"non-numeric {c['field']}={c['value']!r} not rejected with TypeError: {obs}"
         if c.get("malformed"):
             return None if obs == {"err": "ValueError"} else f"out-of-range {c['malformed']} accepted: {str(obs)[:80]}"
         nu, pi, p2, pur, ind, thr = src_params(c)
@@ -603,7 +633,7 @@ class C06:
         k = c["kind"]
         if k == "remap":
             return len(c["d"]) >= 2
-        if c.get("malformed"):
+        if k == "badtype" or c.get("malformed"):
             return True
         nu, pi, p2, pur, ind, thr = src_params(c)
         ph = sum(c["st"]) + (sum(h[1] for h in c["circ"]["heralds"]) if k == "sampler" else 0)
@@ -633,6 +663,8 @@ class C06:
         return None
 
     def shrink(self, c):
+        if c["kind"] == "badtype":
+            return
         if c["kind"] == "remap":
             for i in range(len(c["d"])):
                 d = copy.deepcopy(c)
